@@ -144,9 +144,15 @@ def main():
         c["inmem"] = k % 2
         c["short"] = 1
         cases.append(c)
+        if k % 9 == 4:
+            # the same schedule with every byte laid down 32 768 times: writes of 32 / 64 / 96 KiB, staged totals on exact multiples of 64 KiB
+            for inmem in (0, 1):
+                c = dict(b)
+                c["inmem"], c["short"], c["rep"] = inmem, 0, 32768
+                cases.append(c)
     obs = run_harness("tfb", cases, run.wd, hang_timeout=30)
     for o in obs:
-        key = json.dumps([o["pp"], o["cp"], [h["op"] for h in o["hist"]], o["inmem"], o.get("short", 0)])
+        key = json.dumps([o["pp"], o["cp"], [h["op"] for h in o["hist"]], o["inmem"], o.get("short", 0), o.get("rep", 1)])
         nontrivial = len(o["pp"]) >= 1 and any(h["op"] in ("switch", "park") for h in o["hist"])
         run.count_case(key, nontrivial)
     run.cov["rule"] = ("every complete interleaving of a producer programme (<=MaxOps writes/flushes then drop) with a legal "
